@@ -204,7 +204,9 @@ func (r *Raft) info() Info {
 			}
 			var unreachable *time.Time
 			if !repl.status.noContact.IsZero() {
-				unreachable = &repl.status.noContact
+				// (a copy: the report must not point into live state)
+				since := repl.status.noContact
+				unreachable = &since
 			}
 			flrs[id] = Replication{
 				ID:          id,
